@@ -6,6 +6,7 @@ import (
 	"fmt"
 	"io"
 	"regexp"
+	"sort"
 	"strconv"
 	"strings"
 )
@@ -1001,7 +1002,14 @@ func (e *Evaluator) evalStatement(stmt Statement) error {
 				}
 			}
 		case ValueObj:
-			for k, v := range *iterable.Value.Obj {
+			// iterate the keys in sorted order so the result is deterministic
+			keys := make([]string, 0, len(*iterable.Value.Obj))
+			for k := range *iterable.Value.Obj {
+				keys = append(keys, k)
+			}
+			sort.Strings(keys)
+			for _, k := range keys {
+				v := (*iterable.Value.Obj)[k]
 				if indexLocal != nil {
 					indexLocal.Value = v.Value
 				}
